@@ -426,6 +426,7 @@ pub fn spec(id: &str, variant: &str, cancelable: bool, thorough: bool) -> Option
                 ops: (0, 10),
                 cycles: (0, 6),
                 sched_len: (0, 40),
+                templates: vec![(2, Template::CrossQueue), (1, Template::FanIn)],
                 ..base.clone().set(&[
                     (K::CollectorStart, 2),
                     (K::PushChildSpans, 3),
@@ -448,6 +449,7 @@ pub fn spec(id: &str, variant: &str, cancelable: bool, thorough: bool) -> Option
                 cycles: (0, 6),
                 sched_len: (0, 40),
                 cancelable: Some(true),
+                templates: vec![(2, Template::CrossQueue), (4, Template::FanIn)],
                 ..base.clone().set(&[
                     (K::CollectorStart, 2),
                     (K::PushChildSpans, 3),
@@ -469,6 +471,7 @@ pub fn spec(id: &str, variant: &str, cancelable: bool, thorough: bool) -> Option
                 ops: (0, 20),
                 cycles: (0, 6),
                 cancelable: Some(true),
+                templates: vec![(4, Template::FanIn)],
                 ..base.clone().set(&[(K::CollectorStart, 2), (K::PushChildSpans, 3), (K::Flush, 5), (K::Exit, 2), (K::Finish, 16)])
             }),
             opts: api.clone(),
@@ -484,6 +487,7 @@ pub fn spec(id: &str, variant: &str, cancelable: bool, thorough: bool) -> Option
                 cycles: (0, 6),
                 sched_len: (0, 40),
                 cancelable: Some(cancelable),
+                templates: vec![(3, Template::CrossQueue), (1, Template::FanIn)],
                 ..base.clone().set(&[
                     (K::Cancel, 9),
                     (K::MultiChild, 6),
@@ -539,6 +543,7 @@ pub fn spec(id: &str, variant: &str, cancelable: bool, thorough: bool) -> Option
                 cycles: (0, 8),
                 sched_len: (0, 40),
                 cancelable: Some(cancelable),
+                templates: vec![(3, Template::CrossQueue)],
                 ..base.clone().set(&[
                     (K::Root, 16),
                     (K::Cancel, 4),
@@ -731,6 +736,7 @@ pub fn spec(id: &str, variant: &str, cancelable: bool, thorough: bool) -> Option
                 threads: (1, 3),
                 ops: (0, 28),
                 unique_traces: false,
+                templates: vec![(4, Template::Extract)],
                 ..base.clone().set(&[
                     (K::CtxOfSpan, 10),
                     (K::CtxOfLocal, 12),
@@ -755,6 +761,7 @@ pub fn spec(id: &str, variant: &str, cancelable: bool, thorough: bool) -> Option
             profile: big(Profile {
                 threads: (1, 2),
                 ops: (0, 36),
+                templates: vec![(5, Template::Forest)],
                 ..base.clone().set(&[
                     (K::CollectorStart, 12),
                     (K::EnterLocal, 22),
